@@ -85,7 +85,11 @@ fn scripted_doer(side: u8, root: Option<EntryDetails>, diff: bool, entries: Vec<
                     let _ = s.send(Response::FileContent { data, more_to_follow: false });
                 }
             }
-            Command::Marker(m) => { let _ = s.send(Response::Marker(m)); }
+            Command::Marker(m) => {
+                // a doer answers in order: by the time it echoes a marker every earlier reply has been sent
+                for p in pending.drain(..) { let _ = s.send(Response::Error(p.1)); }
+                let _ = s.send(Response::Marker(m));
+            }
             Command::Shutdown => return Ok(()),
             _ => {
                 if is_mut {
